@@ -6,8 +6,10 @@
 
     Shows C W r      `r` shows exactly the visible value of `W` (hidden parts of either side - stale
                      values of absent optional fields - are not compared; marks are not looked at)
-    Quiet C W        no mark in the visible part of `W` (a dictionary struct and an empty multimap may
-                     keep marks: they are never read / never block a signal)
+    Quiet C W        no mark in the visible part of `W` (a SHARED = frozen dictionary struct and an empty
+                     multimap may keep marks: they are never read / never block a signal; an OWNED
+                     dictionary struct is looked into - it is a copy destination, a stale mark in it would
+                     stop the signal of a change)
     Snd C W R?       the marks of `W` are SOUND against the reader value `R?`: whatever is not marked is
                      in sync with the reader (`Shows` and `Quiet`), whatever is marked is sound
                      recursively; `R? = none` (previous value unknown / reset on the reader's side): everything
@@ -57,7 +59,7 @@ mutual
 def Quiet (C : Ctx) : AS → Prop
   | .prim _ => True
   | .nil => True
-  | .struct n m p _ fs => C.isDictName n = true ∨ (m = 0 ∧ QuietFields C (fieldsOf C n) 0 p fs)
+  | .struct n m p fr fs => (C.isDictName n = true ∧ fr = true) ∨ (m = 0 ∧ QuietFields C (fieldsOf C n) 0 p fs)
   | .oneof _ t as => t = 0 ∨ QuietAlt C (t - 1) as
   | .arr _ es _ => QuietElems C es
   | .mmap _ ps _ k v ml => ps = [] ∨ (k = 0 ∧ v = 0 ∧ ml = false ∧ QuietPairs C ps)
@@ -105,45 +107,72 @@ def altOf (t : Nat) : Option St → Option St
 def fieldPrev (known opt prim rpresent : Bool) (rfs : List St) : Option St :=
   if known && !(opt && !prim && !rpresent) then some (rfs.headD dflt) else none
 
+/-!
+  The `Snd` family carries a mode `ℓ`:
+    ℓ = false   STRICT: sound against the reader value `R` (what the text above describes);
+    ℓ = true    LAX: the marks are UP-CLOSED - whatever is not marked has no mark below (`Quiet`); the
+                reader value is not looked at. This is what an OWNED dictionary struct needs: it is
+                written by value (RefNum hit: `setUnmodifiedRecursively`, which only descends below set
+                bits, must leave it without marks; miss: encoded in full), so its marks never have to
+                describe a difference to the reader, but a copy into it must be able to signal.
+  A shared (frozen) dictionary struct is sound whatever its marks are (never modified, never read).
+  Hidden values (an absent optional field's stale value) must be up-closed too: `Set<F>(v)` of a
+  dictionary-struct field copies into the stale value without resetting it.
+-/
+
 mutual
-def Snd (C : Ctx) : AS → Option St → Prop
+def SndG (C : Ctx) (ℓ : Bool) : AS → Option St → Prop
   | .prim _, _ => True
   | .nil, _ => True
-  | .struct n m p _ fs, R =>
-    C.isDictName n = true ∨ SndFields C (fieldsOf C n) 0 0 m p R.isSome (optPres R) fs (optFields R)
-  | .oneof _ t as, R => t = 0 ∨ SndAlt C (t - 1) as (altOf t R)
-  | .arr _ es _, R => SndElems C es (optElems R)
+  | .struct n m p fr fs, R =>
+    (C.isDictName n = true ∧ (fr = true ∨ SndFieldsG C true (fieldsOf C n) 0 0 m p false 0 fs [])) ∨
+    (C.isDictName n = false ∧ SndFieldsG C ℓ (fieldsOf C n) 0 0 m p R.isSome (optPres R) fs (optFields R))
+  | .oneof _ t as, R => t = 0 ∨ SndAltG C ℓ (t - 1) as (altOf t R)
+  | .arr _ es _, R => SndElemsG C ℓ es (optElems R)
   | .mmap _ ps _ k v ml, R =>
     ps = [] ∨
-    ((ml = true ∨ k ≠ 0 ∨ ps.length ≥ 63) ∧ SndPairs C ps (optPairs R)) ∨
-    (ml = false ∧ k = 0 ∧ ps.length < 63 ∧ R.isSome = true ∧ (optPairs R).length = ps.length ∧
+    ((ℓ = true ∨ ml = true ∨ k ≠ 0 ∨ ps.length ≥ 63) ∧ SndPairsG C ℓ ps (optPairs R)) ∨
+    (ℓ = false ∧ ml = false ∧ k = 0 ∧ ps.length < 63 ∧ R.isSome = true ∧ (optPairs R).length = ps.length ∧
       SndVals C v 0 ps (optPairs R))
-def SndFields (C : Ctx) : List Field → Nat → Nat → Nat → Nat → Bool → Nat → List AS → List St → Prop
+def SndFieldsG (C : Ctx) (ℓ : Bool) : List Field → Nat → Nat → Nat → Nat → Bool → Nat → List AS → List St → Prop
   | _, _, _, _, _, _, _, [], _ => True
   | fds, idx, oi, m, p, known, rp, a :: as, rfs =>
     ((!fdOpt fds || p.testBit oi) = true →
-      (m.testBit idx = true → Snd C a (fieldPrev known (fdOpt fds) (isPrimAS a) (rp.testBit oi) rfs)) ∧
+      (m.testBit idx = true → SndG C ℓ a (fieldPrev known (fdOpt fds) (isPrimAS a) (rp.testBit oi) rfs)) ∧
       (m.testBit idx = false →
-        known = true ∧ (fdOpt fds = true → rp.testBit oi = true) ∧ Shows C a (rfs.headD dflt) ∧ Quiet C a)) ∧
-    SndFields C fds.tail (idx + 1) (if fdOpt fds then oi + 1 else oi) m p known rp as rfs.tail
-def SndAlt (C : Ctx) : Nat → List AS → Option St → Prop
+        (ℓ = true ∨ (known = true ∧ (fdOpt fds = true → rp.testBit oi = true) ∧ Shows C a (rfs.headD dflt))) ∧
+        Quiet C a ∧ SndG C true a none)) ∧
+    ((!fdOpt fds || p.testBit oi) = false → SndG C true a none) ∧
+    SndFieldsG C ℓ fds.tail (idx + 1) (if fdOpt fds then oi + 1 else oi) m p known rp as rfs.tail
+def SndAltG (C : Ctx) (ℓ : Bool) : Nat → List AS → Option St → Prop
   | _, [], _ => True
-  | 0, a :: _, R => Snd C a R
-  | i + 1, _ :: as, R => SndAlt C i as R
-def SndElems (C : Ctx) : List AS → List St → Prop
+  | 0, a :: _, R => SndG C ℓ a R
+  | i + 1, _ :: as, R => SndAltG C ℓ i as R
+def SndElemsG (C : Ctx) (ℓ : Bool) : List AS → List St → Prop
   | [], _ => True
-  | a :: as, rs => Snd C a rs.head? ∧ SndElems C as rs.tail
-def SndPairs (C : Ctx) : List (AS × AS) → List (St × St) → Prop
+  | a :: as, rs => SndG C ℓ a rs.head? ∧ SndElemsG C ℓ as rs.tail
+def SndPairsG (C : Ctx) (ℓ : Bool) : List (AS × AS) → List (St × St) → Prop
   | [], _ => True
   | (a, b) :: ps, rs =>
-    Snd C a (rs.head?.map (·.1)) ∧ Snd C b (rs.head?.map (·.2)) ∧ SndPairs C ps rs.tail
+    SndG C ℓ a (rs.head?.map (·.1)) ∧ SndG C ℓ b (rs.head?.map (·.2)) ∧ SndPairsG C ℓ ps rs.tail
+/-- the values-only form of a multimap (strict mode only) -/
 def SndVals (C : Ctx) : Nat → Nat → List (AS × AS) → List (St × St) → Prop
   | _, _, [], _ => True
   | v, idx, (a, b) :: ps, rs =>
-    (∃ rk rv rs', rs = (rk, rv) :: rs' ∧ Shows C a rk ∧ Quiet C a ∧
-      (if v.testBit idx then Snd C b (some rv) else Shows C b rv ∧ Quiet C b)) ∧
+    (∃ rk rv rs', rs = (rk, rv) :: rs' ∧ Shows C a rk ∧ Quiet C a ∧ SndG C true a none ∧
+      (if v.testBit idx then SndG C false b (some rv) else Shows C b rv ∧ Quiet C b ∧ SndG C true b none)) ∧
     SndVals C v (idx + 1) ps rs.tail
 end
+
+/-- the invariant: the marks of `W` are sound against the reader value `R?` -/
+abbrev Snd (C : Ctx) (a : AS) (R : Option St) : Prop := SndG C false a R
+abbrev SndFields (C : Ctx) := SndFieldsG C false
+abbrev SndAlt (C : Ctx) := SndAltG C false
+abbrev SndElems (C : Ctx) := SndElemsG C false
+abbrev SndPairs (C : Ctx) := SndPairsG C false
+
+/-- up-closed marks (the lax mode; the reader value is irrelevant) -/
+abbrev UC (C : Ctx) (a : AS) : Prop := SndG C true a none
 
 /-! ## Fully marked states are sound against any reader value -/
 
@@ -151,57 +180,124 @@ theorem fieldPrev_unknown (opt prim rp : Bool) (rfs : List St) : fieldPrev false
   simp [fieldPrev]
 
 mutual
-theorem snd_of_full (C : Ctx) : ∀ (a : AS) (R : Option St), Snd C a none → Snd C a R
-  | .prim _, _, _ => by simp [Snd]
-  | .nil, _, _ => by simp [Snd]
+theorem snd_of_full (C : Ctx) (ℓ : Bool) : ∀ (a : AS) (R : Option St), SndG C ℓ a none → SndG C ℓ a R
+  | .prim _, _, _ => by simp [SndG]
+  | .nil, _, _ => by simp [SndG]
   | .struct n m p fr fs, R, h => by
-    simp only [Snd] at h ⊢
-    rcases h with h | h
+    simp only [SndG] at h ⊢
+    rcases h with h | ⟨hd, h⟩
     · exact Or.inl h
-    · exact Or.inr (sndFields_of_full C (fieldsOf C n) 0 0 m p fs R.isSome (optPres R) (optFields R) h)
+    · exact Or.inr ⟨hd, sndFields_of_full C ℓ (fieldsOf C n) 0 0 m p fs R.isSome (optPres R) (optFields R) h⟩
   | .oneof n t as, R, h => by
-    simp only [Snd] at h ⊢
+    simp only [SndG] at h ⊢
     rcases h with h | h
     · exact Or.inl h
-    · exact Or.inr (sndAlt_of_full C (t - 1) as (altOf t R) (by simpa [altOf] using h))
+    · exact Or.inr (sndAlt_of_full C ℓ (t - 1) as (altOf t R) (by simpa [altOf] using h))
   | .arr e es hid, R, h => by
-    simp only [Snd] at h ⊢
-    exact sndElems_of_full C es (optElems R) (by simpa [optElems] using h)
+    simp only [SndG] at h ⊢
+    exact sndElems_of_full C ℓ es (optElems R) (by simpa [optElems] using h)
   | .mmap n ps hid k v ml, R, h => by
-    simp only [Snd] at h ⊢
+    simp only [SndG] at h ⊢
     rcases h with h | h | h
     · exact Or.inl h
-    · exact Or.inr (Or.inl ⟨h.1, sndPairs_of_full C ps (optPairs R) (by simpa [optPairs] using h.2)⟩)
+    · exact Or.inr (Or.inl ⟨h.1, sndPairs_of_full C ℓ ps (optPairs R) (by simpa [optPairs] using h.2)⟩)
     · simp at h
-theorem sndFields_of_full (C : Ctx) : ∀ (fds : List Field) (idx oi m p : Nat) (as : List AS) (known : Bool) (rp : Nat)
-    (rfs : List St), SndFields C fds idx oi m p false 0 as [] → SndFields C fds idx oi m p known rp as rfs
-  | _, _, _, _, _, [], _, _, _, _ => by simp [SndFields]
+theorem sndFields_of_full (C : Ctx) (ℓ : Bool) : ∀ (fds : List Field) (idx oi m p : Nat) (as : List AS) (known : Bool) (rp : Nat)
+    (rfs : List St), SndFieldsG C ℓ fds idx oi m p false 0 as [] → SndFieldsG C ℓ fds idx oi m p known rp as rfs
+  | _, _, _, _, _, [], _, _, _, _ => by simp [SndFieldsG]
   | fds, idx, oi, m, p, a :: as, known, rp, rfs, h => by
-    simp only [SndFields] at h ⊢
-    refine ⟨fun hp => ?_, sndFields_of_full C fds.tail (idx + 1) _ m p as known rp rfs.tail (by simpa using h.2)⟩
+    simp only [SndFieldsG] at h ⊢
+    refine ⟨fun hp => ?_, h.2.1, sndFields_of_full C ℓ fds.tail (idx + 1) _ m p as known rp rfs.tail (by simpa using h.2.2)⟩
     have h1 := h.1 hp
-    refine ⟨fun hm => snd_of_full C a _ (by simpa [fieldPrev_unknown] using h1.1 hm), fun hm => ?_⟩
-    have := (h1.2 hm).1
-    simp at this
-theorem sndAlt_of_full (C : Ctx) : ∀ (i : Nat) (as : List AS) (R : Option St), SndAlt C i as none → SndAlt C i as R
-  | _, [], _, _ => by simp [SndAlt]
-  | 0, a :: _, R, h => by simp only [SndAlt] at h ⊢; exact snd_of_full C a R h
-  | i + 1, _ :: as, R, h => by simp only [SndAlt] at h ⊢; exact sndAlt_of_full C i as R h
-theorem sndElems_of_full (C : Ctx) : ∀ (as : List AS) (rs : List St), SndElems C as [] → SndElems C as rs
-  | [], _, _ => by simp [SndElems]
+    refine ⟨fun hm => snd_of_full C ℓ a _ (by simpa [fieldPrev_unknown] using h1.1 hm), fun hm => ?_⟩
+    obtain ⟨h3, h4⟩ := h1.2 hm
+    refine ⟨?_, h4⟩
+    rcases h3 with h3 | h3
+    · exact Or.inl h3
+    · simp at h3
+theorem sndAlt_of_full (C : Ctx) (ℓ : Bool) : ∀ (i : Nat) (as : List AS) (R : Option St), SndAltG C ℓ i as none → SndAltG C ℓ i as R
+  | _, [], _, _ => by simp [SndAltG]
+  | 0, a :: _, R, h => by simp only [SndAltG] at h ⊢; exact snd_of_full C ℓ a R h
+  | i + 1, _ :: as, R, h => by simp only [SndAltG] at h ⊢; exact sndAlt_of_full C ℓ i as R h
+theorem sndElems_of_full (C : Ctx) (ℓ : Bool) : ∀ (as : List AS) (rs : List St), SndElemsG C ℓ as [] → SndElemsG C ℓ as rs
+  | [], _, _ => by simp [SndElemsG]
   | a :: as, rs, h => by
-    simp only [SndElems] at h ⊢
-    exact ⟨snd_of_full C a _ (by simpa using h.1), sndElems_of_full C as rs.tail (by simpa using h.2)⟩
-theorem sndPairs_of_full (C : Ctx) : ∀ (ps : List (AS × AS)) (rs : List (St × St)),
-    SndPairs C ps [] → SndPairs C ps rs
-  | [], _, _ => by simp [SndPairs]
+    simp only [SndElemsG] at h ⊢
+    exact ⟨snd_of_full C ℓ a _ (by simpa using h.1), sndElems_of_full C ℓ as rs.tail (by simpa using h.2)⟩
+theorem sndPairs_of_full (C : Ctx) (ℓ : Bool) : ∀ (ps : List (AS × AS)) (rs : List (St × St)),
+    SndPairsG C ℓ ps [] → SndPairsG C ℓ ps rs
+  | [], _, _ => by simp [SndPairsG]
   | (a, b) :: ps, rs, h => by
-    simp only [SndPairs] at h ⊢
-    exact ⟨snd_of_full C a _ (by simpa using h.1), snd_of_full C b _ (by simpa using h.2.1),
-      sndPairs_of_full C ps rs.tail (by simpa using h.2.2)⟩
+    simp only [SndPairsG] at h ⊢
+    exact ⟨snd_of_full C ℓ a _ (by simpa using h.1), snd_of_full C ℓ b _ (by simpa using h.2.1),
+      sndPairs_of_full C ℓ ps rs.tail (by simpa using h.2.2)⟩
 end
 
-/-! ## In sync with the reader and unmarked: sound -/
+/-! ## Sound marks are up-closed (strict implies lax; in the lax mode the reader value is irrelevant) -/
+
+mutual
+theorem snd_lax (C : Ctx) : ∀ (ℓ : Bool) (a : AS) (R R' : Option St), SndG C ℓ a R → SndG C true a R'
+  | _, .prim _, _, _, _ => by simp [SndG]
+  | _, .nil, _, _, _ => by simp [SndG]
+  | ℓ, .struct n m p fr fs, R, R', h => by
+    simp only [SndG] at h ⊢
+    rcases h with h | ⟨hd, h⟩
+    · exact Or.inl h
+    · exact Or.inr ⟨hd, sndFields_lax C ℓ (fieldsOf C n) 0 0 m p fs _ _ _ _ _ _ h⟩
+  | ℓ, .oneof n t as, R, R', h => by
+    simp only [SndG] at h ⊢
+    rcases h with h | h
+    · exact Or.inl h
+    · exact Or.inr (sndAlt_lax C ℓ (t - 1) as _ _ h)
+  | ℓ, .arr e es hid, R, R', h => by
+    simp only [SndG] at h ⊢
+    exact sndElems_lax C ℓ es _ _ h
+  | ℓ, .mmap n ps hid k v ml, R, R', h => by
+    simp only [SndG] at h ⊢
+    rcases h with h | ⟨_, h⟩ | ⟨_, _, _, _, _, _, h⟩
+    · exact Or.inl h
+    · exact Or.inr (Or.inl ⟨Or.inl trivial, sndPairs_lax C ℓ ps _ _ h⟩)
+    · exact Or.inr (Or.inl ⟨Or.inl trivial, sndPairs_of_vals_lax C v 0 ps _ _ h⟩)
+theorem sndFields_lax (C : Ctx) : ∀ (ℓ : Bool) (fds : List Field) (idx oi m p : Nat) (as : List AS) (known : Bool) (rp : Nat)
+    (rfs : List St) (known' : Bool) (rp' : Nat) (rfs' : List St),
+    SndFieldsG C ℓ fds idx oi m p known rp as rfs → SndFieldsG C true fds idx oi m p known' rp' as rfs'
+  | _, _, _, _, _, _, [], _, _, _, _, _, _, _ => by simp [SndFieldsG]
+  | ℓ, fds, idx, oi, m, p, a :: as, known, rp, rfs, known', rp', rfs', h => by
+    simp only [SndFieldsG] at h ⊢
+    refine ⟨fun hp => ⟨fun hm => snd_lax C ℓ a _ _ ((h.1 hp).1 hm), fun hm => ⟨Or.inl trivial, ((h.1 hp).2 hm).2⟩⟩, h.2.1,
+      sndFields_lax C ℓ fds.tail (idx + 1) _ m p as known rp rfs.tail known' rp' rfs'.tail h.2.2⟩
+theorem sndAlt_lax (C : Ctx) : ∀ (ℓ : Bool) (i : Nat) (as : List AS) (R R' : Option St), SndAltG C ℓ i as R → SndAltG C true i as R'
+  | _, _, [], _, _, _ => by simp [SndAltG]
+  | ℓ, 0, a :: _, R, R', h => by simp only [SndAltG] at h ⊢; exact snd_lax C ℓ a R R' h
+  | ℓ, i + 1, _ :: as, R, R', h => by simp only [SndAltG] at h ⊢; exact sndAlt_lax C ℓ i as R R' h
+theorem sndElems_lax (C : Ctx) : ∀ (ℓ : Bool) (as : List AS) (rs rs' : List St), SndElemsG C ℓ as rs → SndElemsG C true as rs'
+  | _, [], _, _, _ => by simp [SndElemsG]
+  | ℓ, a :: as, rs, rs', h => by
+    simp only [SndElemsG] at h ⊢
+    exact ⟨snd_lax C ℓ a _ _ h.1, sndElems_lax C ℓ as rs.tail rs'.tail h.2⟩
+theorem sndPairs_lax (C : Ctx) : ∀ (ℓ : Bool) (ps : List (AS × AS)) (rs rs' : List (St × St)),
+    SndPairsG C ℓ ps rs → SndPairsG C true ps rs'
+  | _, [], _, _, _ => by simp [SndPairsG]
+  | ℓ, (a, b) :: ps, rs, rs', h => by
+    simp only [SndPairsG] at h ⊢
+    exact ⟨snd_lax C ℓ a _ _ h.1, snd_lax C ℓ b _ _ h.2.1, sndPairs_lax C ℓ ps rs.tail rs'.tail h.2.2⟩
+theorem sndPairs_of_vals_lax (C : Ctx) : ∀ (v idx : Nat) (ps : List (AS × AS)) (rs rs' : List (St × St)),
+    SndVals C v idx ps rs → SndPairsG C true ps rs'
+  | _, _, [], _, _, _ => by simp [SndPairsG]
+  | v, idx, (a, b) :: ps, rs, rs', h => by
+    simp only [SndVals, SndPairsG] at h ⊢
+    obtain ⟨⟨rk, rv, rs0, e, _, _, hla, hb⟩, h2⟩ := h
+    refine ⟨snd_lax C true a _ _ hla, ?_, sndPairs_of_vals_lax C v (idx + 1) ps rs.tail rs'.tail h2⟩
+    by_cases hv : v.testBit idx = true
+    · simp only [hv, if_true] at hb
+      exact snd_lax C false b _ _ hb
+    · simp only [hv] at hb
+      exact snd_lax C true b _ _ hb.2.2
+end
+
+theorem uc_of_snd (C : Ctx) (ℓ : Bool) (a : AS) (R : Option St) (h : SndG C ℓ a R) : UC C a := snd_lax C ℓ a R none h
+
+/-! ## In sync with the reader, unmarked, hidden parts up-closed: sound -/
 
 theorem showsPairs_length (C : Ctx) : ∀ (ps : List (AS × AS)) (rs : List (St × St)),
     ShowsPairs C ps rs → rs.length = ps.length
@@ -222,85 +318,105 @@ theorem showsElems_length (C : Ctx) : ∀ (as : List AS) (rs : List St),
     simp [showsElems_length C as rs' h']
 
 mutual
-theorem snd_of_sync (C : Ctx) : ∀ (a : AS) (r : St), Shows C a r → Quiet C a → Snd C a (some r)
-  | .prim _, _, _, _ => by simp [Snd]
-  | .nil, _, _, _ => by simp [Snd]
-  | .struct n m p fr fs, r, hs, hq => by
-    simp only [Snd, Shows, Quiet] at hs hq ⊢
-    rcases hq with hq | ⟨hm, hq⟩
-    · exact Or.inl hq
-    · obtain ⟨rfs, e, hs⟩ := hs
-      subst e hm
-      exact Or.inr (sndFields_of_sync C (fieldsOf C n) 0 0 p fs rfs hs hq)
-  | .oneof n t as, r, hs, hq => by
-    simp only [Snd, Shows, Quiet] at hs hq ⊢
+theorem snd_of_sync0 (C : Ctx) : ∀ (a : AS) (r : St), Shows C a r → Quiet C a → UC C a → SndG C false a (some r)
+  | .prim _, _, _, _, _ => by simp [SndG]
+  | .nil, _, _, _, _ => by simp [SndG]
+  | .struct n m p fr fs, r, hs, hq, hl => by
+    simp only [UC, SndG, Shows, Quiet] at hs hq hl ⊢
+    rcases hl with hl | ⟨hd, hl⟩
+    · exact Or.inl hl
+    · rcases hq with ⟨hd', _⟩ | ⟨hm, hq⟩
+      · rw [hd] at hd'; simp at hd'
+      · obtain ⟨rfs, e, hs⟩ := hs
+        subst e hm
+        exact Or.inr ⟨hd, sndFields_of_sync C (fieldsOf C n) 0 0 p fs rfs _ _ _ hs hq hl⟩
+  | .oneof n t as, r, hs, hq, hl => by
+    simp only [UC, SndG, Shows, Quiet] at hs hq hl ⊢
     rcases hs with ⟨ht, _⟩ | ⟨ht, rv, e, hs⟩
     · exact Or.inl ht
     · subst e
       rcases hq with hq | hq
       · exact absurd hq ht
-      · exact Or.inr (by simpa [altOf] using sndAlt_of_sync C (t - 1) as rv hs hq)
-  | .arr e es hid, r, hs, hq => by
-    simp only [Snd, Shows, Quiet] at hs hq ⊢
+      · rcases hl with hl | hl
+        · exact absurd hl ht
+        · exact Or.inr (by simpa [altOf] using sndAlt_of_sync C (t - 1) as rv _ hs hq hl)
+  | .arr e es hid, r, hs, hq, hl => by
+    simp only [UC, SndG, Shows, Quiet] at hs hq hl ⊢
     obtain ⟨rs, e, hs⟩ := hs
     subst e
-    exact sndElems_of_sync C es rs hs hq
-  | .mmap n ps hid k v ml, r, hs, hq => by
-    simp only [Snd, Shows, Quiet] at hs hq ⊢
+    exact sndElems_of_sync C es rs _ hs hq hl
+  | .mmap n ps hid k v ml, r, hs, hq, hl => by
+    simp only [UC, SndG, Shows, Quiet] at hs hq hl ⊢
     obtain ⟨rps, e, hs⟩ := hs
     subst e
     rcases hq with hq | ⟨hk, hv, hml, hq⟩
     · exact Or.inl hq
-    · by_cases hl : ps.length < 63
-      · refine Or.inr (Or.inr ⟨hml, hk, hl, by simp, ?_, ?_⟩)
-        · simpa [optPairs, mmapPairs] using showsPairs_length C ps rps hs
-        · subst hv
-          simpa [optPairs, mmapPairs] using sndVals_of_sync C 0 ps rps hs hq
-      · refine Or.inr (Or.inl ⟨Or.inr (Or.inr (by omega)), ?_⟩)
-        simpa [optPairs, mmapPairs] using sndPairs_of_sync C ps rps hs hq
-theorem sndFields_of_sync (C : Ctx) : ∀ (fds : List Field) (idx oi p : Nat) (as : List AS) (rfs : List St),
-    ShowsFields C fds oi p as rfs → QuietFields C fds oi p as →
-    SndFields C fds idx oi 0 p true p as rfs
-  | _, _, _, _, [], _, _, _ => by simp [SndFields]
-  | fds, idx, oi, p, a :: as, rfs, hs, hq => by
-    simp only [SndFields, ShowsFields, QuietFields] at hs hq ⊢
+    · rcases hl with hl | ⟨_, hl⟩ | ⟨hl, _⟩
+      · exact Or.inl hl
+      · by_cases hlen : ps.length < 63
+        · refine Or.inr (Or.inr ⟨trivial, hml, hk, hlen, by simp, ?_, ?_⟩)
+          · simpa [optPairs, mmapPairs] using showsPairs_length C ps rps hs
+          · subst hv
+            simpa [optPairs, mmapPairs] using sndVals_of_sync C 0 ps rps _ hs hq hl
+        · refine Or.inr (Or.inl ⟨Or.inr (Or.inr (Or.inr (by omega))), ?_⟩)
+          simpa [optPairs, mmapPairs] using sndPairs_of_sync C ps rps _ hs hq hl
+      · simp at hl
+theorem sndFields_of_sync (C : Ctx) : ∀ (fds : List Field) (idx oi p : Nat) (as : List AS) (rfs : List St)
+    (known : Bool) (rp : Nat) (rfs' : List St),
+    ShowsFields C fds oi p as rfs → QuietFields C fds oi p as → SndFieldsG C true fds idx oi 0 p known rp as rfs' →
+    SndFieldsG C false fds idx oi 0 p true p as rfs
+  | _, _, _, _, [], _, _, _, _, _, _, _ => by simp [SndFieldsG]
+  | fds, idx, oi, p, a :: as, rfs, known, rp, rfs', hs, hq, hl => by
+    simp only [SndFieldsG, ShowsFields, QuietFields] at hs hq hl ⊢
     obtain ⟨r, rs', e, hs1, hs2⟩ := hs
     subst e
-    refine ⟨fun hp => ⟨fun hm => by simp at hm, fun _ => ⟨trivial, fun ho => ?_, by simpa using hs1 hp, hq.1 hp⟩⟩,
-      by simpa using sndFields_of_sync C fds.tail (idx + 1) _ p as rs' hs2 hq.2⟩
+    refine ⟨fun hp => ⟨fun hm => by simp at hm, fun _ => ⟨Or.inr ⟨trivial, fun ho => ?_, by simpa using hs1 hp⟩, hq.1 hp,
+        ((hl.1 hp).2 (Nat.zero_testBit idx)).2.2⟩⟩, hl.2.1,
+      by simpa using sndFields_of_sync C fds.tail (idx + 1) _ p as rs' known rp rfs'.tail hs2 hq.2 hl.2.2⟩
     simpa [ho] using hp
-theorem sndAlt_of_sync (C : Ctx) : ∀ (i : Nat) (as : List AS) (r : St), ShowsAlt C i as r → QuietAlt C i as →
-    SndAlt C i as (some r)
-  | _, [], _, _, _ => by simp [SndAlt]
-  | 0, a :: _, r, hs, hq => by simp only [SndAlt, ShowsAlt, QuietAlt] at hs hq ⊢; exact snd_of_sync C a r hs hq
-  | i + 1, _ :: as, r, hs, hq => by
-    simp only [SndAlt, ShowsAlt, QuietAlt] at hs hq ⊢; exact sndAlt_of_sync C i as r hs hq
-theorem sndElems_of_sync (C : Ctx) : ∀ (as : List AS) (rs : List St), ShowsElems C as rs →
-    QuietElems C as → SndElems C as rs
-  | [], _, _, _ => by simp [SndElems]
-  | a :: as, rs, hs, hq => by
-    simp only [SndElems, ShowsElems, QuietElems] at hs hq ⊢
-    obtain ⟨r, rs', e, hs1, hs2⟩ := hs
+theorem sndAlt_of_sync (C : Ctx) : ∀ (i : Nat) (as : List AS) (r : St) (R' : Option St), ShowsAlt C i as r → QuietAlt C i as →
+    SndAltG C true i as R' → SndAltG C false i as (some r)
+  | _, [], _, _, _, _, _ => by simp [SndAltG]
+  | 0, a :: _, r, R', hs, hq, hl => by
+    simp only [SndAltG, ShowsAlt, QuietAlt] at hs hq hl ⊢; exact snd_of_sync0 C a r hs hq (snd_lax C true a _ _ hl)
+  | i + 1, _ :: as, r, R', hs, hq, hl => by
+    simp only [SndAltG, ShowsAlt, QuietAlt] at hs hq hl ⊢; exact sndAlt_of_sync C i as r R' hs hq hl
+theorem sndElems_of_sync (C : Ctx) : ∀ (as : List AS) (rs rs' : List St), ShowsElems C as rs →
+    QuietElems C as → SndElemsG C true as rs' → SndElemsG C false as rs
+  | [], _, _, _, _, _ => by simp [SndElemsG]
+  | a :: as, rs, rs', hs, hq, hl => by
+    simp only [SndElemsG, ShowsElems, QuietElems] at hs hq hl ⊢
+    obtain ⟨r, rs0, e, hs1, hs2⟩ := hs
     subst e
-    exact ⟨by simpa using snd_of_sync C a r hs1 hq.1, by simpa using sndElems_of_sync C as rs' hs2 hq.2⟩
-theorem sndPairs_of_sync (C : Ctx) : ∀ (ps : List (AS × AS)) (rs : List (St × St)), ShowsPairs C ps rs →
-    QuietPairs C ps → SndPairs C ps rs
-  | [], _, _, _ => by simp [SndPairs]
-  | (a, b) :: ps, rs, hs, hq => by
-    simp only [SndPairs, ShowsPairs, QuietPairs] at hs hq ⊢
-    obtain ⟨rk, rv, rs', e, hs1, hs2, hs3⟩ := hs
+    exact ⟨by simpa using snd_of_sync0 C a r hs1 hq.1 (snd_lax C true a _ _ hl.1),
+      by simpa using sndElems_of_sync C as rs0 rs'.tail hs2 hq.2 hl.2⟩
+theorem sndPairs_of_sync (C : Ctx) : ∀ (ps : List (AS × AS)) (rs rs' : List (St × St)), ShowsPairs C ps rs →
+    QuietPairs C ps → SndPairsG C true ps rs' → SndPairsG C false ps rs
+  | [], _, _, _, _, _ => by simp [SndPairsG]
+  | (a, b) :: ps, rs, rs', hs, hq, hl => by
+    simp only [SndPairsG, ShowsPairs, QuietPairs] at hs hq hl ⊢
+    obtain ⟨rk, rv, rs0, e, hs1, hs2, hs3⟩ := hs
     subst e
-    exact ⟨by simpa using snd_of_sync C a rk hs1 hq.1, by simpa using snd_of_sync C b rv hs2 hq.2.1,
-      by simpa using sndPairs_of_sync C ps rs' hs3 hq.2.2⟩
-theorem sndVals_of_sync (C : Ctx) : ∀ (idx : Nat) (ps : List (AS × AS)) (rs : List (St × St)), ShowsPairs C ps rs →
-    QuietPairs C ps → SndVals C 0 idx ps rs
-  | _, [], _, _, _ => by simp [SndVals]
-  | idx, (a, b) :: ps, rs, hs, hq => by
-    simp only [SndVals, ShowsPairs, QuietPairs] at hs hq ⊢
-    obtain ⟨rk, rv, rs', e, hs1, hs2, hs3⟩ := hs
+    exact ⟨by simpa using snd_of_sync0 C a rk hs1 hq.1 (snd_lax C true a _ _ hl.1),
+      by simpa using snd_of_sync0 C b rv hs2 hq.2.1 (snd_lax C true b _ _ hl.2.1),
+      by simpa using sndPairs_of_sync C ps rs0 rs'.tail hs3 hq.2.2 hl.2.2⟩
+theorem sndVals_of_sync (C : Ctx) : ∀ (idx : Nat) (ps : List (AS × AS)) (rs rs' : List (St × St)), ShowsPairs C ps rs →
+    QuietPairs C ps → SndPairsG C true ps rs' → SndVals C 0 idx ps rs
+  | _, [], _, _, _, _, _ => by simp [SndVals]
+  | idx, (a, b) :: ps, rs, rs', hs, hq, hl => by
+    simp only [SndVals, SndPairsG, ShowsPairs, QuietPairs] at hs hq hl ⊢
+    obtain ⟨rk, rv, rs0, e, hs1, hs2, hs3⟩ := hs
     subst e
-    exact ⟨⟨rk, rv, rs', rfl, hs1, hq.1, by simp [hs2, hq.2.1]⟩, by simpa using sndVals_of_sync C (idx + 1) ps rs' hs3 hq.2.2⟩
+    exact ⟨⟨rk, rv, rs0, rfl, hs1, hq.1, snd_lax C true a _ _ hl.1, by simp [hs2, hq.2.1, snd_lax C true b _ none hl.2.1]⟩,
+      by simpa using sndVals_of_sync C (idx + 1) ps rs0 rs'.tail hs3 hq.2.2 hl.2.2⟩
 end
+
+/-- in sync with the reader + no marks + hidden parts up-closed: sound, in either mode -/
+theorem snd_of_sync (C : Ctx) (ℓ : Bool) (a : AS) (r : St) (hs : Shows C a r) (hq : Quiet C a) (hl : UC C a) :
+    SndG C ℓ a (some r) := by
+  cases ℓ with
+  | false => exact snd_of_sync0 C a r hs hq hl
+  | true => exact snd_lax C true a _ _ hl
 
 /-! ## `setModifiedRecursively` marks in full -/
 
@@ -313,58 +429,152 @@ theorem setModRecPairs_length : ∀ (ps : List (AS × AS)), (setModRecPairs ps).
   | (a, b) :: ps => by simp [setModRecPairs, setModRecPairs_length ps]
 
 mutual
-theorem snd_setModRec (C : Ctx) : ∀ (a : AS), Snd C (setModRec a) none
-  | .prim _ => by simp [setModRec, Snd]
-  | .nil => by simp [setModRec, Snd]
-  | .struct n m p fr fs => by
-    simp only [setModRec, Snd]
-    refine Or.inr ?_
-    exact sndFields_setModRec C (fieldsOf C n) 0 0 (2 ^ fs.length - 1) p fs
-      (fun j hj => by simp [Nat.testBit_two_pow_sub_one]; omega)
-  | .oneof n t as => by
-    simp only [setModRec, Snd]
+theorem snd_setModRec_any (C : Ctx) : ∀ (ℓ : Bool) (a : AS) (R : Option St), SndG C ℓ (setModRec a) R
+  | _, .prim _, _ => by simp [setModRec, SndG]
+  | _, .nil, _ => by simp [setModRec, SndG]
+  | ℓ, .struct n m p fr fs, R => by
+    simp only [setModRec, SndG]
+    have hb : ∀ j, j < fs.length → (2 ^ fs.length - 1).testBit (0 + j) = true := fun j hj => by
+      simp [Nat.testBit_two_pow_sub_one]; omega
+    by_cases hd : C.isDictName n = true
+    · exact Or.inl ⟨hd, Or.inr (sndFields_setModRec C true (fieldsOf C n) 0 0 (2 ^ fs.length - 1) p fs _ _ _ hb)⟩
+    · exact Or.inr ⟨by simpa using hd, sndFields_setModRec C ℓ (fieldsOf C n) 0 0 (2 ^ fs.length - 1) p fs _ _ _ hb⟩
+  | ℓ, .oneof n t as, R => by
+    simp only [setModRec, SndG]
     by_cases ht : t = 0
     · exact Or.inl ht
     · refine Or.inr ?_
       have : (t == 0) = false := by simp [ht]
       rw [this]
-      simpa [altOf] using sndAlt_setModRec C (t - 1) as
-  | .arr e es hid => by
-    simp only [setModRec, Snd]
-    simpa [optElems] using sndElems_setModRec C es
-  | .mmap n ps hid k v ml => by
-    simp only [setModRec, Snd]
-    exact Or.inr (Or.inl ⟨Or.inl trivial, by simpa [optPairs] using sndPairs_setModRec C ps⟩)
-theorem sndFields_setModRec (C : Ctx) : ∀ (fds : List Field) (idx oi m p : Nat) (as : List AS),
+      exact sndAlt_setModRec C ℓ (t - 1) as _
+  | ℓ, .arr e es hid, R => by
+    simp only [setModRec, SndG]
+    exact sndElems_setModRec C ℓ es _
+  | ℓ, .mmap n ps hid k v ml, R => by
+    simp only [setModRec, SndG]
+    exact Or.inr (Or.inl ⟨Or.inr (Or.inl trivial), sndPairs_setModRec C ℓ ps _⟩)
+theorem sndFields_setModRec (C : Ctx) : ∀ (ℓ : Bool) (fds : List Field) (idx oi m p : Nat) (as : List AS)
+    (known : Bool) (rp : Nat) (rfs : List St),
     (∀ j, j < as.length → m.testBit (idx + j) = true) →
-    SndFields C fds idx oi m p false 0 (setModRecList as) []
-  | _, _, _, _, _, [], _ => by simp [setModRecList, SndFields]
-  | fds, idx, oi, m, p, a :: as, hm => by
-    simp only [setModRecList, SndFields]
-    refine ⟨fun _ => ⟨fun _ => by simpa [fieldPrev_unknown] using snd_setModRec C a, fun h0 => ?_⟩,
-      by simpa using sndFields_setModRec C fds.tail (idx + 1) _ m p as (fun j hj => by
+    SndFieldsG C ℓ fds idx oi m p known rp (setModRecList as) rfs
+  | _, _, _, _, _, _, [], _, _, _, _ => by simp [setModRecList, SndFieldsG]
+  | ℓ, fds, idx, oi, m, p, a :: as, known, rp, rfs, hm => by
+    simp only [setModRecList, SndFieldsG]
+    refine ⟨fun _ => ⟨fun _ => snd_setModRec_any C ℓ a _, fun h0 => ?_⟩, fun _ => snd_setModRec_any C true a _,
+      sndFields_setModRec C ℓ fds.tail (idx + 1) _ m p as known rp rfs.tail (fun j hj => by
         have := hm (j + 1) (by simp; omega)
         rwa [show idx + (j + 1) = idx + 1 + j by omega] at this)⟩
     have := hm 0 (by simp)
     simp [h0] at this
-theorem sndAlt_setModRec (C : Ctx) : ∀ (i : Nat) (as : List AS), SndAlt C i (setModRecAlt i false as) none
-  | _, [] => by simp [setModRecAlt, SndAlt]
-  | 0, a :: _ => by simp only [setModRecAlt, SndAlt]; simpa using snd_setModRec C a
-  | i + 1, _ :: as => by simp only [setModRecAlt, SndAlt]; exact sndAlt_setModRec C i as
-theorem sndElems_setModRec (C : Ctx) : ∀ (as : List AS), SndElems C (setModRecList as) []
-  | [] => by simp [setModRecList, SndElems]
-  | a :: as => by
-    simp only [setModRecList, SndElems]
-    exact ⟨by simpa using snd_setModRec C a, by simpa using sndElems_setModRec C as⟩
-theorem sndPairs_setModRec (C : Ctx) : ∀ (ps : List (AS × AS)), SndPairs C (setModRecPairs ps) []
-  | [] => by simp [setModRecPairs, SndPairs]
-  | (a, b) :: ps => by
-    simp only [setModRecPairs, SndPairs]
-    exact ⟨by simpa using snd_setModRec C a, by simpa using snd_setModRec C b, by simpa using sndPairs_setModRec C ps⟩
+theorem sndAlt_setModRec (C : Ctx) : ∀ (ℓ : Bool) (i : Nat) (as : List AS) (R : Option St), SndAltG C ℓ i (setModRecAlt i false as) R
+  | _, _, [], _ => by simp [setModRecAlt, SndAltG]
+  | ℓ, 0, a :: _, R => by simp only [setModRecAlt, SndAltG]; simpa using snd_setModRec_any C ℓ a R
+  | ℓ, i + 1, _ :: as, R => by simp only [setModRecAlt, SndAltG]; exact sndAlt_setModRec C ℓ i as R
+theorem sndElems_setModRec (C : Ctx) : ∀ (ℓ : Bool) (as : List AS) (rs : List St), SndElemsG C ℓ (setModRecList as) rs
+  | _, [], _ => by simp [setModRecList, SndElemsG]
+  | ℓ, a :: as, rs => by
+    simp only [setModRecList, SndElemsG]
+    exact ⟨snd_setModRec_any C ℓ a _, sndElems_setModRec C ℓ as _⟩
+theorem sndPairs_setModRec (C : Ctx) : ∀ (ℓ : Bool) (ps : List (AS × AS)) (rs : List (St × St)), SndPairsG C ℓ (setModRecPairs ps) rs
+  | _, [], _ => by simp [setModRecPairs, SndPairsG]
+  | ℓ, (a, b) :: ps, rs => by
+    simp only [setModRecPairs, SndPairsG]
+    exact ⟨snd_setModRec_any C ℓ a _, snd_setModRec_any C ℓ b _, sndPairs_setModRec C ℓ ps _⟩
 end
 
-/-- a value that was just passed through `setModifiedRecursively` is sound against any reader value -/
-theorem snd_setModRec_any (C : Ctx) (a : AS) (R : Option St) : Snd C (setModRec a) R :=
-  snd_of_full C _ R (snd_setModRec C a)
+theorem snd_setModRec (C : Ctx) (a : AS) : Snd C (setModRec a) none := snd_setModRec_any C false a none
+
+/-! ## `setUnmodifiedRecursively` on up-closed marks leaves no mark -/
+
+mutual
+theorem quiet_setUnmodRec (C : Ctx) : ∀ (a : AS) (R : Option St), SndG C true a R →
+    Quiet C (setUnmodRec a) ∧ UC C (setUnmodRec a)
+  | .prim _, _, _ => by simp [setUnmodRec, Quiet, UC, SndG]
+  | .nil, _, _ => by simp [setUnmodRec, Quiet, UC, SndG]
+  | .struct n m p fr fs, R, h => by
+    simp only [setUnmodRec, Quiet, UC, SndG] at h ⊢
+    rcases h with ⟨hd, hfr | h⟩ | ⟨hd, h⟩
+    · exact ⟨Or.inl ⟨hd, hfr⟩, Or.inl ⟨hd, Or.inl hfr⟩⟩
+    · have := quietFields_setUnmodRec C (fieldsOf C n) 0 0 m p fs _ _ _ false 0 [] h
+      exact ⟨Or.inr ⟨trivial, this.1⟩, Or.inl ⟨hd, Or.inr this.2⟩⟩
+    · have := quietFields_setUnmodRec C (fieldsOf C n) 0 0 m p fs _ _ _ false 0 [] h
+      exact ⟨Or.inr ⟨trivial, this.1⟩, Or.inr ⟨hd, this.2⟩⟩
+  | .oneof n t as, R, h => by
+    simp only [setUnmodRec, Quiet, UC, SndG] at h ⊢
+    by_cases ht : t = 0
+    · exact ⟨Or.inl ht, Or.inl ht⟩
+    · rcases h with h | h
+      · exact absurd h ht
+      · have : (t == 0) = false := by simp [ht]
+        rw [this]
+        have := quietAlt_setUnmodRec C (t - 1) as _ none h
+        exact ⟨Or.inr this.1, Or.inr (by simpa [altOf] using this.2)⟩
+  | .arr e es hid, R, h => by
+    simp only [setUnmodRec, Quiet, UC, SndG] at h ⊢
+    have := quietElems_setUnmodRec C es _ [] h
+    exact ⟨this.1, by simpa [optElems] using this.2⟩
+  | .mmap n ps hid k v ml, R, h => by
+    simp only [setUnmodRec, Quiet, UC, SndG] at h ⊢
+    rcases h with h | ⟨_, h⟩ | ⟨h, _⟩
+    · subst h
+      simp [setUnmodRecPairs]
+    · have := quietPairs_setUnmodRec C ps _ [] h
+      exact ⟨Or.inr ⟨trivial, trivial, trivial, this.1⟩, Or.inr (Or.inl ⟨Or.inl trivial, by simpa [optPairs] using this.2⟩)⟩
+    · simp at h
+theorem quietFields_setUnmodRec (C : Ctx) : ∀ (fds : List Field) (idx oi m p : Nat) (as : List AS) (known : Bool) (rp : Nat)
+    (rfs : List St) (known' : Bool) (rp' : Nat) (rfs' : List St), SndFieldsG C true fds idx oi m p known rp as rfs →
+    QuietFields C fds oi p (setUnmodRecFields m idx as) ∧
+      SndFieldsG C true fds idx oi 0 p known' rp' (setUnmodRecFields m idx as) rfs'
+  | _, _, _, _, _, [], _, _, _, _, _, _, _ => by simp [setUnmodRecFields, QuietFields, SndFieldsG]
+  | fds, idx, oi, m, p, a :: as, known, rp, rfs, known', rp', rfs', h => by
+    simp only [setUnmodRecFields, QuietFields, SndFieldsG] at h ⊢
+    have ih := quietFields_setUnmodRec C fds.tail (idx + 1) (if fdOpt fds then oi + 1 else oi) m p as known rp rfs.tail
+      known' rp' rfs'.tail h.2.2
+    have key : (!fdOpt fds || p.testBit oi) = true →
+        Quiet C (if m.testBit idx then setUnmodRec a else a) ∧ UC C (if m.testBit idx then setUnmodRec a else a) := by
+      intro hp
+      by_cases hm : m.testBit idx = true
+      · simp only [hm, if_true]
+        exact quiet_setUnmodRec C a _ ((h.1 hp).1 hm)
+      · simp only [hm]
+        have := (h.1 hp).2 (by simpa using hm)
+        exact ⟨this.2.1, this.2.2⟩
+    have key2 : (!fdOpt fds || p.testBit oi) = false → UC C (if m.testBit idx then setUnmodRec a else a) := by
+      intro hp
+      by_cases hm : m.testBit idx = true
+      · simp only [hm, if_true]
+        exact (quiet_setUnmodRec C a _ (h.2.1 hp)).2
+      · simp only [hm]
+        exact h.2.1 hp
+    refine ⟨⟨fun hp => (key hp).1, ih.1⟩, fun hp => ⟨fun h0 => by simp at h0, fun _ => ⟨Or.inl trivial, (key hp).1, (key hp).2⟩⟩,
+      key2, ih.2⟩
+theorem quietAlt_setUnmodRec (C : Ctx) : ∀ (i : Nat) (as : List AS) (R R' : Option St), SndAltG C true i as R →
+    QuietAlt C i (setUnmodRecAlt i false as) ∧ SndAltG C true i (setUnmodRecAlt i false as) R'
+  | _, [], _, _, _ => by simp [setUnmodRecAlt, QuietAlt, SndAltG]
+  | 0, a :: _, R, R', h => by
+    simp only [setUnmodRecAlt, QuietAlt, SndAltG] at h ⊢
+    have := quiet_setUnmodRec C a R h
+    exact ⟨by simpa using this.1, by simpa using snd_lax C true _ _ R' this.2⟩
+  | i + 1, _ :: as, R, R', h => by
+    simp only [setUnmodRecAlt, QuietAlt, SndAltG] at h ⊢
+    exact quietAlt_setUnmodRec C i as R R' h
+theorem quietElems_setUnmodRec (C : Ctx) : ∀ (as : List AS) (rs rs' : List St), SndElemsG C true as rs →
+    QuietElems C (setUnmodRecList as) ∧ SndElemsG C true (setUnmodRecList as) rs'
+  | [], _, _, _ => by simp [setUnmodRecList, QuietElems, SndElemsG]
+  | a :: as, rs, rs', h => by
+    simp only [setUnmodRecList, QuietElems, SndElemsG] at h ⊢
+    have h1 := quiet_setUnmodRec C a _ h.1
+    have h2 := quietElems_setUnmodRec C as rs.tail rs'.tail h.2
+    exact ⟨⟨h1.1, h2.1⟩, snd_lax C true _ _ _ h1.2, h2.2⟩
+theorem quietPairs_setUnmodRec (C : Ctx) : ∀ (ps : List (AS × AS)) (rs rs' : List (St × St)), SndPairsG C true ps rs →
+    QuietPairs C (setUnmodRecPairs ps) ∧ SndPairsG C true (setUnmodRecPairs ps) rs'
+  | [], _, _, _ => by simp [setUnmodRecPairs, QuietPairs, SndPairsG]
+  | (a, b) :: ps, rs, rs', h => by
+    simp only [setUnmodRecPairs, QuietPairs, SndPairsG] at h ⊢
+    have h1 := quiet_setUnmodRec C a _ h.1
+    have h2 := quiet_setUnmodRec C b _ h.2.1
+    have h3 := quietPairs_setUnmodRec C ps rs.tail rs'.tail h.2.2
+    exact ⟨⟨h1.1, h2.1, h3.1⟩, snd_lax C true _ _ _ h1.2, snd_lax C true _ _ _ h2.2, h3.2⟩
+end
 
 end Stef.Api
